@@ -266,7 +266,7 @@ func TestC01(t *testing.T) {
 	h := hh.Start(t, "C01",
 		"cases = (schema tree, input, mode) from the witness-driven generator biased towards valid inputs; non-trivial = the call returned no issues, >=2 checked nodes carry tests, and the case has a catching node, a struct with >=2 fields, a slice with >=2 elements or a non-nil pointer; distinct = FNV-1a of the case JSON",
 		"one-directional oracle: only successful results are judged, by the reference predicates of model/preds.go and the documented absent rule",
-		"no PostTransforms in these cases (they legitimately change values after the tests ran)")
+		"no PostTransforms in these cases (they legitimately change values after the tests ran); Preprocess wrappers are looked through: the wrapped schema governs what the function returned (a nil pointer result is no value); every execution starts after a fixed process prelude (collected issues, a recovered panic in a nested user callback)")
 	defer h.Finish()
 	reps := h.N(3, 8)
 	for _, mode := range []string{"parse", "validate"} {
